@@ -7,6 +7,7 @@ import (
 	"sort"
 	"strings"
 
+	leanhelix "github.com/orbs-network/lean-helix-go"
 	"github.com/orbs-network/lean-helix-go/services/interfaces"
 	"github.com/orbs-network/lean-helix-go/spec/types/go/protocol"
 
@@ -431,6 +432,22 @@ func (m *Monitors) PostTimeout(n *Node, pre *deliveryCtx, h, v uint64, effects [
 // Dropping bytes the reference decoder cannot read either is the intended behaviour; a panic while
 // handling a message that decodes completely is a defect in the handling code.
 func (m *Monitors) OnRecoveredPanic(n *Node, r interface{}) {
+	if pr, msg, ok := leanhelix.VerifFilterPanicOf(r); ok {
+		// recovered by the height filter: msg is the message that was being processed (the delivered one or a cached one)
+		var raw *interfaces.ConsensusRawMessage
+		func() {
+			defer func() { recover() }()
+			raw = msg.ToConsensusRawMessage()
+		}()
+		if raw != nil {
+			if dm, ok := ref.Decode(raw); ok {
+				m.violate("C12", "panic-while-handling-well-formed-message:"+panicClass(fmt.Sprint(pr)), "node %s panicked (recovered by the height filter) while handling %s(hdr=%v) h=%d v=%d from %s: %v", n.Id, dm.Env, dm.Type, dm.H, dm.V, dm.Sender.Id, pr)
+				return
+			}
+		}
+		m.Stats["C12 malformed messages dropped after a parser panic"]++
+		return
+	}
 	if m.cur != nil && m.cur.f != nil && m.cur.f.Msg != nil {
 		m.violate("C12", "panic-while-handling-well-formed-message:"+panicClass(fmt.Sprint(r)), "node %s panicked (recovered by the worker) while handling %s: %v", n.Id, Describe(m.cur.f), r)
 		return
